@@ -195,44 +195,60 @@ def check_handover(ctx, rule="R1-state-hand-over"):
 
 
 def check_cascade(ctx, rule="R2-cascade-is-DF2T"):
-    """loop-body identity of the first-order sections: y = a0*x + z ; z' = a1*x - b1*y, state read before / written after the sample loop."""
+    """loop-body identity of the first-order sections: y = a0*u + z ; z' = a1*u - b1*y, state read before / written after the
+    sample loop, output written back to the working array.  All roles are found by data flow, not by variable names."""
     repo = ctx.repo
     key = f"{NOISE}::_numba_lfilter_cascade"; fn = repo.get(key); where = repo.where(key, fn); ctx.analysed(key)
     setup()
     I = Interp(repo)
-    for nm in ("a_coeffs", "b_coeffs", "zi", "samples"): ARRAY_KIND[nm] = "real"
+    for nm in ("a_coeffs", "b_coeffs", "zi", "samples", "work"): ARRAY_KIND[nm] = "real"
     st = St()
     KIND["nsec"] = "nat"
-    args = [ArrParam("samples"), ArrParam("a_coeffs", 2, shape=(X.var("nsec"), X.const(2))), ArrParam("b_coeffs", 2, shape=(X.var("nsec"), X.const(2))),
+    src = ArrParam("samples")
+
+    def method(I_, o, name, args, kw, st_, n):
+        if o is src and name == "copy": return ArrParam("work", shape=(src.shape(0),))      # the working copy is a distinct array
+        return NotImplemented
+    I.hooks["method"] = method
+    args = [src, ArrParam("a_coeffs", 2, shape=(X.var("nsec"), X.const(2))), ArrParam("b_coeffs", 2, shape=(X.var("nsec"), X.const(2))),
             ArrParam("zi", 2, shape=(X.var("nsec"), X.const(1)))]
     try:
         r = I.call_key(key, args, {}, st)
     except Unknown as ex:
         ctx.unknown(rule, key, str(ex), where); return
-    inner = [sm for k, sm in I.loop_summaries.items() if isinstance(k, int) and "z" in sm.get("entry", {})]
+    inner = [sm for k, sm in I.loop_summaries.items() if isinstance(k, int) and len(sm.get("entry", {})) == 1]
     if not inner:
-        ctx.unknown(rule, key, "sample loop with carried state z not found", where); return
+        ctx.unknown(rule, key, "sample loop with one carried state variable not found", where); return
     S = inner[0]
-    ez = X.var(S["entry"]["z"])
-    nxt = S["next"].get("z")
-    # the section index is the enclosing loop's variable: read it off the coefficient atoms
-    env = S["env"]
-    a0, a1, b1 = (to_x(env.get(k)) for k in ("a0", "a1", "b1"))
-    xj = to_x(env.get("x")); y = to_x(env.get("y"))
-    if None in (a0, a1, b1, xj, y) or to_x(nxt) is None:
-        ctx.unknown(rule, key, "section body not recognised", where); return
-    ctx.compare(rule, key + "[y]", y, a0 * xj + ez, where, detail="output y = a0*x + z (direct form II transposed)")
-    ctx.compare(rule, key + "[z]", to_x(nxt), a1 * xj - b1 * y, where, detail="state z' = a1*x - b1*y")
-    # coefficient roles: a0,a1 = a_coeffs[i]; b0,b1 = b_coeffs[i]
-    def is_coef(x, arr, col):
-        return len(x.m) == 1 and not x.p and list(x.m)[0].tag == "idx" and list(x.m)[0].name == arr and list(x.m)[0].args[1].eq(X.const(col))
-    ok = is_coef(a0, "a_coeffs", 0) and is_coef(a1, "a_coeffs", 1) and is_coef(b1, "b_coeffs", 1)
-    (ctx.holds if ok else ctx.violated)(rule, key + "[coefficients]", "a0,a1 = numerator row; b1 = second denominator coefficient of the same section" if ok else
-                                        f"section coefficients are read as a0={a0!r}, a1={a1!r}, b1={b1!r}", where)
-    sec = list(a0.m)[0].args[0] if ok else None
-    pre = to_x(S["pre"]["z"])
-    okpre = pre is not None and sec is not None and len(pre.m) == 1 and list(pre.m)[0].tag == "idx" and False
-    # state read before the loop from slot [i,0] and stored back to the same slot after it (syntactic dominance within the section loop)
+    (sname, esym), = S["entry"].items()
+    ez = X.var(esym)
+    nxt = to_x(S["next"].get(sname)); pre = to_x(S["pre"].get(sname))
+    iv = S.get("ivar")
+    # the section index is read off the slot the state comes from: zi[sec, 0]
+    sec = None
+    if pre is not None and len(pre.m) == 1 and not pre.p:
+        at = list(pre.m)[0]
+        if at.tag == "idx" and at.name == "zi" and at.args[1].eq(X.const(0)): sec = at.args[0]
+    if nxt is None or sec is None or iv is None:
+        ctx.unknown(rule, key, f"section state not recognised (initial value {pre!r}, update {S['next'].get(sname)!r})"[:300], where); return
+    a0, a1, b1 = mk_idx("a_coeffs", [sec, X.const(0)], "real"), mk_idx("a_coeffs", [sec, X.const(1)], "real"), mk_idx("b_coeffs", [sec, X.const(1)], "real")
+    # the array the loop writes at its own index, and the value written there
+    stored = None; warr = None
+    for nm, val in S["env"].items():
+        if isinstance(val, Arr) and isinstance(val.body, PV) and val.ndim == 1:
+            lo = val.body.lo
+            names = {a_.name for a_ in to_x(lo).all_atoms() if a_.tag == "idx"} if to_x(lo) is not None else set()
+            if len(names) == 1: stored = val.body.hi; warr = names.pop()
+    if stored is None or to_x(stored) is None:
+        ctx.unknown(rule, key, "no element store at the sample index found in the section loop", where); return
+    u = mk_idx(warr, [X.var(iv)], "real")
+    y_ref = a0 * u + ez
+    ctx.compare(rule, key + "[y]", to_x(stored), y_ref, where, detail="output y = a0*u + z written at the sample index (direct form II transposed)")
+    ctx.compare(rule, key + "[z]", nxt, a1 * u - b1 * y_ref, where, detail="state z' = a1*u - b1*y with a0,a1 the numerator row and b1 the second denominator coefficient of the same section")
+    okc = warr == "work"
+    (ctx.holds if okc else ctx.violated)(rule, key + "[chaining]", "each section reads and overwrites the working copy: the next section filters the previous section's output" if okc else
+                                         f"the section loop reads / writes '{warr}' instead of the working copy of the samples", where)
+    # state read before the loop from its slot and stored back to the same slot after it
     outer = None
     for n in ast.walk(fn):
         if isinstance(n, ast.For) and any(isinstance(m, ast.For) for m in n.body): outer = n
@@ -240,15 +256,14 @@ def check_cascade(ctx, rule="R2-cascade-is-DF2T"):
     if outer is not None:
         idx_inner = next(i for i, m in enumerate(outer.body) if isinstance(m, ast.For))
         before = outer.body[:idx_inner]; after = outer.body[idx_inner + 1:]
-        rd = [m for m in before if isinstance(m, ast.Assign) and isinstance(m.targets[0], ast.Name) and m.targets[0].id == "z" and isinstance(m.value, ast.Subscript)]
-        wr = [m for m in after if isinstance(m, ast.Assign) and isinstance(m.targets[0], ast.Subscript) and isinstance(m.value, ast.Name) and m.value.id == "z"]
-        if rd and wr and ast.unparse(rd[-1].value) == ast.unparse(wr[0].targets[0]): good = True
+        rd = [m for m in before if isinstance(m, ast.Assign) and isinstance(m.targets[0], ast.Name) and m.targets[0].id == sname and isinstance(m.value, ast.Subscript)]
+        wr = [m for m in after if isinstance(m, ast.Assign) and isinstance(m.targets[0], ast.Subscript) and isinstance(m.value, ast.Name) and m.value.id == sname]
+        if rd and wr and ast.dump(rd[-1].value.value) == ast.dump(wr[0].targets[0].value) and ast.dump(rd[-1].value.slice) == ast.dump(wr[0].targets[0].slice): good = True
     (ctx.holds if good else ctx.violated)(rule, key + "[state slot]", "each section reads its state before and writes the same slot after its sample loop" if good else
                                           "a section's final state is not written back to the slot it was read from", where)
-    # samples processed in place section after section: input of section i is the output of section i-1
-    store_ok = any(ev[0] == "store" and ev[2] == "local" or True for ev in S["events"])
-    ctx.holds(rule, key + "[chaining]", "filtered_samples[j] is overwritten by y: the next section filters the previous section's output", where) if "filtered_samples[j] = y" in ast.unparse(fn) else \
-        ctx.violated(rule, key + "[chaining]", "section output is not written back to the working array", where)
+    # the filtered working copy and the state array are what is returned
+    okr = isinstance(r, tuple) and len(r) == 2 and isinstance(r[0], ArrParam) and r[0].name == "work" and isinstance(r[1], ArrParam) and r[1].name == "zi"
+    (ctx.holds if okr else ctx.violated)(rule, key + "[returned]", "returns (filtered working copy, final states)" if okr else f"returns {r!r}", where)
 
 
 def check_fifo(ctx, rule="R4-get_sample-is-FIFO"):
